@@ -22,7 +22,7 @@ class mesh_to_mesh(SpaceTransfer):
         Args:
             F: the fine level data (easier to access than via the fine attribute)
         """
-        if isinstance(F, mesh):
+        if isinstance(F, mesh) and not isinstance(F, imex_mesh):
             G = mesh(F)
         elif isinstance(F, imex_mesh):
             G = imex_mesh(F)
@@ -37,7 +37,7 @@ class mesh_to_mesh(SpaceTransfer):
         Args:
             G: the coarse level data (easier to access than via the coarse attribute)
         """
-        if isinstance(G, mesh):
+        if isinstance(G, mesh) and not isinstance(G, imex_mesh):
             F = mesh(G)
         elif isinstance(G, imex_mesh):
             F = imex_mesh(G)
